@@ -65,6 +65,9 @@ var redactTopKeys = []string{
 	"auth_events", "origin", "origin_server_ts", "membership",
 	"unsigned", "age_ts", "redacts", "outlier", "destinations", "replaces_state", "prev_content", "user_id", "age",
 	"Hashes", "Sender", "ROOM_ID", "ſender", "ſtate_key", "origin_server_tſ", "Kind", "extra", "",
+	// case variants (ASCII, U+017F long s, U+212A Kelvin sign) of every kind of protected key: redaction compares keys exactly
+	"Event_id", "EVENT_ID", "event_ıd", "Type", "Content", "State_key", "STATE_KEY", "Signatures", "ſignatureſ", "HASHES", "haſhes",
+	"Depth", "Prev_events", "Auth_events", "Origin", "Membership", "Prev_state", "Origin_server_ts", "Kind",
 }
 
 func jstr(s string) *JV           { return &JV{Kind: 's', Str: s} }
@@ -254,6 +257,25 @@ func genRedact(o *Out, tier string, r *Rng) {
 		`{"type":"m.room.member","content":{"third_party_invite":{"display_name":"a"}}}`,
 		`{"type":"m.room.member","content":{"third_party_invite":"x"}}`,
 		`{"type":"m.room.create","content":null}`, `{"type":"m.room.create"}`, `{"type":"m.room.create","content":{}}`,
+		// case variants of protected keys are unlisted keys (exact matching); of duplicate exact keys the last one counts
+		`{"Event_id":"$x","type":"m.room.message","content":{}}`,
+		`{"Event_id":"$x","event_id":"$y","type":"m.room.message","content":{"body":"b"}}`,
+		`{"event_id":"$y","Event_id":"$x","EVENT_ID":null,"type":"m.room.message","content":{}}`,
+		`{"TYPE":"m.room.member","type":"m.room.create","content":{"creator":"@a:b","membership":"join"}}`,
+		`{"Type":"m.room.member","content":{"membership":"join"}}`,
+		`{"type":"m.room.member","Content":{"membership":"join"}}`, `{"type":"m.room.member","Content":{"membership":"join"},"content":{"membership":"leave","x":1}}`,
+		`{"type":"m.room.member","content":{"membership":"leave"},"CONTENT":7}`, `{"type":"m.room.member","content":{"membership":"leave"},"CONTENT":{"a":1e999}}`,
+		`{"Sender":"@a:b","SENDER":"@b:b","ſender":"@c:b","type":"x","content":{}}`, `{"sender":"@a:b","Sender":"@b:b","type":"x","content":{}}`,
+		`{"State_key":"","ſtate_key":"@a:b","type":"m.room.member","content":{"membership":"join"}}`,
+		`{"state_key":"@a:b","STATE_KEY":"","type":"m.room.member","content":{"membership":"join"}}`,
+		`{"Hashes":{"sha256":"x"},"HASHES":null,"haſhes":1,"type":"x","content":{}}`, `{"hashes":{"sha256":"y"},"Hashes":{"sha256":"x"},"type":"x","content":{}}`,
+		`{"Signatures":{"a":{"ed25519:1":"c2ln"}},"ſignatureſ":{},"type":"x","content":{}}`,
+		`{"signatures":{"b":{"ed25519:1":"c2ln"}},"SIGNATURES":{"a":{"ed25519:1":"c2ln"}},"type":"x","content":{}}`,
+		`{"Depth":1,"Room_id":"!r:b","Origin_server_ts":2,"Prev_events":[],"Auth_events":[],"Origin":"b","Membership":"join","Prev_state":[],"type":"x","content":{}}`,
+		`{"type":5,"type":"x","content":{}}`, `{"type":"x","type":5,"content":{}}`, `{"type":null,"type":"x","content":7,"content":{"a":1}}`,
+		`{"content":{"a":1},"content":{"b":2},"type":"m.room.create"}`, `{"sender":"@a:b","sender":"@b:b","type":"x","content":{}}`,
+		`{"hashes":1,"hashes":null,"signatures":{"a":{}},"signatures":{"b":{}},"type":"x","content":{}}`,
+		`{"event_id":"$a","event_id":"$b","state_key":"a","state_key":"b","type":"x","content":{}}`,
 	}
 	for _, ver := range allVersions {
 		for _, t := range fixed {
@@ -335,7 +357,8 @@ func genRedact(o *Out, tier string, r *Rng) {
 		}
 		// a second, case-variant or duplicate, member for one of the protected keys
 		if r.Chance(12) {
-			key := Pick(r, []string{"type", "content", "sender", "hashes", "Type", "Content", "ſender", "SENDER", "state_key", "State_Key"})
+			key := Pick(r, []string{"type", "content", "sender", "hashes", "Type", "Content", "ſender", "SENDER", "state_key", "State_Key",
+				"event_id", "Event_id", "EVENT_ID", "signatures", "Signatures", "ſignatures", "HASHES", "haſhes", "ſtate_key", "room_id", "Room_ID", "depth", "Depth"})
 			var v *JV
 			switch {
 			case strings.EqualFold(key, "type"):
